@@ -21,6 +21,15 @@ type ringLeaseKV struct {
 	lab     *ringlab.Lab
 	rng     *rand.Rand
 	retries int64
+	// transport: a call failed in the transport of the real RPC path (time-out on a saturated
+	// machine): whether it took effect is unknown, the rest of the scenario is not judged
+	transport string
+}
+
+func (k *ringLeaseKV) note(err error) {
+	if err != nil && (strings.Contains(err.Error(), "failed to do request") || strings.Contains(err.Error(), "context deadline exceeded")) {
+		k.transport = err.Error()
+	}
 }
 
 func (k *ringLeaseKV) node() *ringlab.Member {
@@ -31,6 +40,7 @@ func (k *ringLeaseKV) node() *ringlab.Member {
 func (k *ringLeaseKV) Acquire(ctx context.Context, lease []byte, ttl time.Duration) (tok uint64, err error) {
 	for a := 0; a < 300; a++ {
 		if tok, err = k.node().Node.Acquire(ctx, lease, ttl); err == nil || !chord.ErrorIsRetryable(err) {
+			k.note(err)
 			return
 		}
 		k.retries++
@@ -41,6 +51,7 @@ func (k *ringLeaseKV) Acquire(ctx context.Context, lease []byte, ttl time.Durati
 func (k *ringLeaseKV) Renew(ctx context.Context, lease []byte, ttl time.Duration, prev uint64) (tok uint64, err error) {
 	for a := 0; a < 300; a++ {
 		if tok, err = k.node().Node.Renew(ctx, lease, ttl, prev); err == nil || !chord.ErrorIsRetryable(err) {
+			k.note(err)
 			return
 		}
 		k.retries++
@@ -51,6 +62,7 @@ func (k *ringLeaseKV) Renew(ctx context.Context, lease []byte, ttl time.Duration
 func (k *ringLeaseKV) Release(ctx context.Context, lease []byte, token uint64) (err error) {
 	for a := 0; a < 300; a++ {
 		if err = k.node().Node.Release(ctx, lease, token); err == nil || !chord.ErrorIsRetryable(err) {
+			k.note(err)
 			return
 		}
 		k.retries++
@@ -69,7 +81,13 @@ func ringPart(r *ev.Run, vc *kvlab.VirtualClock) {
 			continue
 		}
 		rng := r.Rand(name)
-		lab := ringlab.New(ringlab.Options{Mode: ringlab.NetV, Seed: rng.Int63()})
+		mode := ringlab.NetV
+		if ri%3 == 2 {
+			// the real RPC path: a call that enters through a node that is not the owner travels as
+			// chord.RemoteNode -> twirp -> the owner's RPC server, TTL and tokens on the wire
+			mode = ringlab.RealRPC
+		}
+		lab := ringlab.New(ringlab.Options{Mode: mode, Seed: rng.Int63()})
 		used := map[uint64]bool{}
 		newID := func() uint64 {
 			for {
@@ -103,6 +121,11 @@ func ringPart(r *ev.Run, vc *kvlab.VirtualClock) {
 			lease := fmt.Sprintf("%s/l%d", name, li)
 			stop := false
 			kvlab.LeaseScenario(kv, vc, o, rng, lease, 30, func(e kvlab.LeaseEvent, v kvlab.LeaseVerdict) bool {
+				if kv.transport != "" {
+					r.Inconclusive(name + ": transport error over the real RPC path, rest of the scenario not judged: " + kv.transport)
+					stop = true
+					return false
+				}
 				nCalls.Add(1)
 				trace = append(trace, fmt.Sprintf("t=%d [%s] %s", e.Call, v.Before, e))
 				if len(trace) > 60 {
@@ -110,7 +133,7 @@ func ringPart(r *ev.Run, vc *kvlab.VirtualClock) {
 				}
 				sig := ""
 				if v.Class != "" {
-					sig = "ring/virtual/" + v.Class + "/" + got(e)
+					sig = "ring/virtual/" + map[bool]string{false: "proxied", true: "rpc"}[mode == ringlab.RealRPC] + "/" + v.Class + "/" + got(e)
 				}
 				r.Case(sig)
 				if len(v.Diffs) > 0 {
